@@ -152,6 +152,26 @@ theorem stepApi_writes {st st' : St} {c : Api} (hr : respectful st (.api c) = tr
     rename_i ety a hg _ _ m2 hm2
     refine pres_setRemove (Ext.refl _ _) (.inl ?_) hm2
     simp [wset, hg]
+  | psRemove g p hh =>
+    simp only [stepApi] at h
+    opt_cases h
+    rename_i a hg _ _ m2 hm2
+    refine pres_setRemove (Ext.refl _ _) (.inl ?_) hm2
+    simp [wset, hg]
+  | psAddAllSteps g p hs =>
+    simp only [stepApi] at h
+    opt_cases h
+    · exact Ext.refl _ _
+    · rename_i _ a hg _ arr off len cap hp _ _ _ m2 hm2
+      simp only [respectful, hg, Bool.and_eq_true] at hr
+      have hw : SetW (fun x => wset st (.api (.psAddAllSteps g p hs)) x = true) st.mem st.mem a := by
+        refine setW_of_owned ?_ hr.1
+        intro x hx
+        rcases hx with hx | hx <;> simp [wset, hg, hx]
+      refine (pres_setAddAll _ _ _ _ (pres_freezeCaller _ _ ?_) (setW_freezeCaller _ hw) hm2).1
+      intro ho
+      simp [wset, hp, ho]
+    · exact Ext.refl _ _
   | psAdd g p hh =>
     simp only [stepApi] at h
     opt_cases h
@@ -255,7 +275,27 @@ theorem wset_owner {st : St} {op : HeapOp} (hr : respectful st op = true) {x : A
         simp only [Bool.or_eq_true, beq_iff_eq] at hx
         exact .inr (.inr ⟨a, hr.1, hx⟩)
       · simp at hx
+    case psRemove g p hh =>
+      simp only [wset] at hx
+      split at hx
+      · rename_i a hg
+        simp only [respectful, hg, setOwned, Bool.and_eq_true, beq_iff_eq] at hr
+        simp only [Bool.or_eq_true, beq_iff_eq] at hx
+        exact .inr (.inr ⟨a, hr.1, hx⟩)
+      · simp at hx
     case psAdd g p hh =>
+      simp only [wset, Bool.or_eq_true] at hx
+      rcases hx with hx | hx
+      · split at hx
+        · rename_i a hg
+          simp only [respectful, hg, setOwned, Bool.and_eq_true, beq_iff_eq] at hr
+          simp only [Bool.or_eq_true, beq_iff_eq] at hx
+          exact .inr (.inr ⟨a, hr.1.1, hx⟩)
+        · simp at hx
+      · split at hx
+        · simp only [Bool.and_eq_true, beq_iff_eq] at hx; exact .inl hx.2
+        · simp at hx
+    case psAddAllSteps g p hs =>
       simp only [wset, Bool.or_eq_true] at hx
       rcases hx with hx | hx
       · split at hx
